@@ -14,7 +14,8 @@
 // usage: main run <plan.json> <out.ndjson>   |   main try <args...>
 //
 // plan.json: {"dir": scratch dir (created, becomes the working directory), "files": {relative path: content},
-// "env": {NAME: value}, "unset": [NAME], "cases": [{"id": n, "args": [...], "defs": [default URIs], "rep": k}]}.
+// "env": {NAME: value}, "unset": [NAME], "http": {"/path": {"status": n, "body": text}} (served by a local server whose
+// address replaces %HTTPHOST% in the arguments), "cases": [{"id": n, "args": [...], "defs": [default URIs], "rep": k}]}.
 // out.ndjson: one line per case {"id": n, "obs": [{"route":..., "ok": bool, "raw": JSON of the configuration, "err": text}]}.
 package main
 
@@ -24,8 +25,11 @@ import (
 	"encoding/json"
 	"fmt"
 	"io"
+	"net/http"
+	"net/http/httptest"
 	"os"
 	"path/filepath"
+	"strings"
 
 	yaml "sigs.k8s.io/yaml/goyaml.v3"
 
@@ -48,11 +52,18 @@ type caseIn struct {
 }
 
 type planIn struct {
-	Dir   string            `json:"dir"`
-	Files map[string]string `json:"files"`
-	Env   map[string]string `json:"env"`
-	Unset []string          `json:"unset"`
-	Cases []caseIn          `json:"cases"`
+	Dir   string             `json:"dir"`
+	Files map[string]string  `json:"files"`
+	Env   map[string]string  `json:"env"`
+	Unset []string           `json:"unset"`
+	HTTP  map[string]httpDoc `json:"http"`
+	Cases []caseIn           `json:"cases"`
+}
+
+// httpDoc is what the local HTTP server answers for one path (every other path: 404 "not found").
+type httpDoc struct {
+	Status int    `json:"status"`
+	Body   string `json:"body"`
 }
 
 type obs struct {
@@ -121,8 +132,34 @@ func errText(err error) string {
 	return s
 }
 
+// norm makes the value encodable without losing its kind: an empty list is a list (ToStringMap returns a nil []any for
+// it, which encoding/json would write as null), maps keyed by any become maps keyed by string.
+func norm(v any) any {
+	switch x := v.(type) {
+	case map[string]any:
+		m := make(map[string]any, len(x))
+		for k, e := range x {
+			m[k] = norm(e)
+		}
+		return m
+	case map[any]any:
+		m := make(map[string]any, len(x))
+		for k, e := range x {
+			m[fmt.Sprint(k)] = norm(e)
+		}
+		return m
+	case []any:
+		l := make([]any, 0, len(x))
+		for _, e := range x {
+			l = append(l, norm(e))
+		}
+		return l
+	}
+	return v
+}
+
 func jsonOf(v any) (json.RawMessage, error) {
-	b, err := json.Marshal(v)
+	b, err := json.Marshal(norm(v))
 	return json.RawMessage(b), err
 }
 
@@ -244,6 +281,27 @@ func main() {
 		for n, v := range p.Env {
 			if err = os.Setenv(n, v); err != nil {
 				fatal("setenv %s: %v", n, err)
+			}
+		}
+		if len(p.HTTP) > 0 {
+			srv := httptest.NewServer(http.HandlerFunc(func(rw http.ResponseWriter, r *http.Request) {
+				d, ok := p.HTTP[r.URL.Path]
+				if !ok {
+					http.Error(rw, "not found", http.StatusNotFound)
+					return
+				}
+				rw.WriteHeader(d.Status)
+				_, _ = io.WriteString(rw, d.Body)
+			}))
+			defer srv.Close()
+			host := srv.Listener.Addr().String()
+			for i := range p.Cases {
+				for j, a := range p.Cases[i].Args {
+					p.Cases[i].Args[j] = strings.ReplaceAll(a, "%HTTPHOST%", host)
+				}
+				for j, a := range p.Cases[i].Defs {
+					p.Cases[i].Defs[j] = strings.ReplaceAll(a, "%HTTPHOST%", host)
+				}
 			}
 		}
 		enc := json.NewEncoder(w)
